@@ -193,20 +193,32 @@ CLAIMED.update({
 
 # Additions made after the independently seeded changes (see DESIGN.md §13): appended to the level texts.
 ADDENDA = {
+    "C57": " CLEAR_FEATURE(ENDPOINT_HALT) for 0x84, 0x04, 0x83 and absent endpoints between transfers.",
+    "C55": " The caller-provided output signal is observed as well as the returned one.",
+    "C46": " One case in four runs 28-66 extra full packets (5-bit sequence number wraps).",
+    "C44": " Nine clock frequencies incl. power-of-two cycle counts for 1 ms and 10 us.",
+    "C39": " Partner ordering mismatch: LBAD overtaking LGOODs still pending for earlier headers, optionally aimed at the end of the header in flight.",
+    "C36": " One DATA packet in ten carries 65-1024 bytes.",
+    "C31": " Words of one repeated control code (SKP weighted) and framing ordered sets next to data.",
+    "C24": " Plus Subs on a bus with a reset pin: multi-epoch usb-domain reset histories with a fresh PHY model after every reset.",
+    "C09": " Plus a Sub on the whole USBDevice (8 configurations) with control transfers completed or abandoned at any packet boundary.",
+    "C08": " Host transactions with OTHER devices on the bus (foreign-address token, idle bus, host ACK) between the stages; one recorded known finding (late foreign-device ACK after an un-ACKed status ZLP).",
+    "C05": " A segment may begin with a synchronous reset of the usb domain instead of a start.",
+    "C01": " Several token images glued into one over-long packet (bad/valid head + filler + well-formed own token or SOF).",
     "C02": " Also packets with a non-data first byte and an embedded '<data PID> body CRC16'.",
-    "C06": " A second Sub wires token detector (generated 7-bit device address) + CRC + timer + non-standalone decoder as device.py/control.py do; near-miss SETUP-like tokens (bad check nibble / CRC5 / foreign address) directly before valid data.",
+    "C06": " A second Sub wires token detector (generated 7-bit device address) + CRC + timer + non-standalone decoder as device.py/control.py do; near-miss SETUP-like tokens (bad check nibble / CRC5 / foreign address) directly before valid data. CRC-valid over-long packets (payload P||crc16(P)||more; valid packet + trailing bytes).",
     "C07": " Control writes with a data stage abandoned after SETUP or 1-2 data packets, then control reads.",
-    "C10": " Transfers before the judged request may be abandoned or lose an ACK; CLEAR_FEATURE over all 32 recipients and arbitrary 16-bit selectors.",
-    "C14": " A second rig with stream endpoints 1 and 9 (IN+OUT) checks clear-halts naming endpoint numbers >= 8.",
+    "C10": " Transfers before the judged request may be abandoned or lose an ACK; CLEAR_FEATURE over all 32 recipients and arbitrary 16-bit selectors. Plus a rig with a non-empty skiplist and an application handler.",
+    "C14": " A second rig with stream endpoints 1 and 9 (IN+OUT) checks clear-halts naming endpoint numbers >= 8. Plus a Sub on USBStreamOutEndpoint at all three speeds with the FIFO filled at a chosen byte of a packet.",
     "C17": " Plus configurations with signal_domain != 'usb' (signal changing on usb cycle boundaries).",
-    "C20": " Traffic addressed to another device address; rx_active tails of 0-6 cycles after the last byte.",
-    "C21": " Bus resets (SE0 >= 305 cycles) and short SE0 glitches between SOFs: no new_frame without a received SOF.",
+    "C20": " Traffic addressed to another device address; rx_active tails of 0-6 cycles after the last byte. SOF frame numbers aliasing the device address.",
+    "C21": " Bus resets (SE0 >= 305 cycles) and short SE0 glitches between SOFs: no new_frame without a received SOF. Data packets whose tail or middle is a well-formed SOF/token image.",
     "C22": " Plus a Sub on the real handle_clocking configuration (record with rst) with RxCmds inside/around the 60000-cycle start-up window.",
     "C23": " op_mode 0/2 mixed between packets of one case; a third of mode changes start the packet 0-6 cycles after the control change.",
-    "C25": " Plus a Sub switching op_mode to non-driving at any cycle of a packet in flight.",
-    "C30": " Plus token sequences on one detector without reset (second exhaustive pass with an accepted neighbour token first) and the USB2 data receiver's acceptance under rx_valid gaps (C02's Sub reused).",
+    "C25": " Plus a Sub switching op_mode to non-driving at any cycle of a packet in flight. Badly encoded receive packets (omitted stuffed bits, runts, dribble bits) between good ones.",
+    "C30": " Plus token sequences on one detector without reset (second exhaustive pass with an accepted neighbour token first) and the USB2 data receiver's acceptance under rx_valid gaps (C02's Sub reused). Plus USB3 header trains (back-to-back, forged/stale check fields) through RawHeaderPacketReceiver.",
     "C33": " enable_scrambling switched per word incl. the end-of-training shape on the real physical layer.",
-    "C38": " Link-down instants also aimed at received headers' last word (-2..+8); a header counted by the advertisement must have been accepted (offered on the queue or LGOODed); request strobes pulsed during the down period.",
+    "C38": " Link-down instants also aimed at received headers' last word (-2..+8); a header counted by the advertisement must have been accepted (offered on the queue or LGOODed); request strobes pulsed during the down period. Plus a Sub on the complete USB3LinkLayer (mock PHY, host BFM): 2-6 U0 periods entered by training, Recovery or hot reset; advertisement and sequence numbers judged after every entry.",
     "C40": " Long packets (1020-1024, 2^k+-1) in 1 of 40.",
     "C41": " Warm-reset pulses (1-640 cycles) injected after any script step incl. Hot Reset.Active/Exit and recovery substates.",
     "C45": " Plus an open-loop Sub strobing requests at every offset around the queue's acceptance cycle.",
@@ -214,7 +226,7 @@ ADDENDA = {
     "C48": " wLength over the full 16 bits with weight on 2^k, 2^k+-1.",
     "C51": " Aborts releasing CS together with the SCK edge; over-long frames with command-shaped surplus clocks.",
     "C52": " START after an ACKed read and START directly after START are generated.",
-    "C56": " Extra triggers in every cycle in which sampling is high, including the last.",
+    "C56": " Extra triggers in every cycle in which sampling is high, including the last. Read address parked on the last/first/any index from the trigger or around the end of the capture; captured_sample judged whenever complete is high.",
 }
 for _k, _v in ADDENDA.items():
     if _k in CLAIMED:
